@@ -110,17 +110,117 @@ theorem elligator_nat (r0 : Nat) :
   have h0 : natOps.const 0 = 0 := const_0
   have h12 : natOps.const 12 = MONTGOMERY_A := const_12
   have h13 : natOps.const 13 = fneg MONTGOMERY_A := by rw [fneg_A]; exact const_13
-  simp only [elligatorH, invert_nat, h0, h1, h12, h13, List.getD_cons_zero]
-  simp only [natOps]
+  have ea : ∀ a b, natOps.add a b = fadd a b := fun _ _ => rfl
+  have em : ∀ a b, natOps.mul a b = fmul a b := fun _ _ => rfl
+  have es : ∀ a, natOps.square a = fsq a := fun _ => rfl
+  have es2 : ∀ a, natOps.square2 a = fmul 2 (fsq a) := fun _ => rfl
+  have en : ∀ a, natOps.neg a = fneg a := fun _ => rfl
+  have ec : ∀ c a b, natOps.csel c a b = if c = 0 then a else b := fun _ _ _ => rfl
+  have ecn : ∀ a, natOps.cnot a = b2n (a == 0) := fun _ => rfl
+  have edf : natOps.dflt = 0 := rfl
+  simp only [elligatorH, invert_nat, h0, h1, h12, h13, List.getD_cons_zero, ea, em, es, es2, en, ec, ecn, edf]
   unfold Spec.elligatorEncode
   simp only []
-  generalize fmul (fneg MONTGOMERY_A) (finv (fadd 1 (fmul 2 (fsq r0)))) = d
+  have hdlt : fmul (fneg MONTGOMERY_A) (finv (fadd 1 (fmul 2 (fsq r0)))) < P := fmul_lt _ _
+  generalize fmul (fneg MONTGOMERY_A) (finv (fadd 1 (fmul 2 (fsq r0)))) = d at hdlt
   have hd : fmul d (fadd (fadd (fsq d) (fmul MONTGOMERY_A d)) 1) < P := fmul_lt _ _
   generalize fmul d (fadd (fadd (fsq d) (fmul MONTGOMERY_A d)) 1) = eps at hd
   rw [sqrt_ratio_i_nat eps 1 hd (by norm_num)]
   simp only [List.getD_cons_zero]
   cases (sqrtRatioM1 eps 1).1
   · simp [b2n]
-  · sorry
+  · have : fadd d 0 = d := Nat.mod_eq_of_lt hdlt
+    simp [b2n, this]
+
+/-! ### the output of `elligator_encode` is on the curve -/
+
+/-- in a prime field the product of two non-squares is a square -/
+theorem isSquare_mul_of_not {a b : Fp} (ha : ¬ IsSquare a) (hb : ¬ IsSquare b) : IsSquare (a * b) := by
+  have ha0 : a ≠ 0 := by rintro rfl; exact ha ⟨0, by simp⟩
+  have hb0 : b ≠ 0 := by rintro rfl; exact hb ⟨0, by simp⟩
+  rw [ZMod.euler_criterion P ha0] at ha
+  rw [ZMod.euler_criterion P hb0] at hb
+  rw [ZMod.euler_criterion P (mul_ne_zero ha0 hb0), mul_pow]
+  rcases ZMod.pow_div_two_eq_neg_one_or_one P ha0 with h | h
+  · exact absurd h ha
+  rcases ZMod.pow_div_two_eq_neg_one_or_one P hb0 with h' | h'
+  · exact absurd h' hb
+  rw [h, h']; ring
+
+/-- `1 + 2r² ≠ 0`: `−1/2` is not a square (`−1` is, `2` is not) -/
+theorem one_add_two_sq_ne_zero (r : Fp) : 1 + 2 * r ^ 2 ≠ 0 := by
+  intro h
+  have hr : r ≠ 0 := by
+    rintro rfl
+    have : (1 : Fp) = 0 := by linear_combination h
+    exact one_ne_zero this
+  apply two_not_isSquare
+  refine ⟨Dalek.FieldFacts.sqrtM1 * r⁻¹, ?_⟩
+  have hi := Dalek.FieldFacts.sqrtM1_mul_self
+  have : (2 : Fp) = -(r ^ 2)⁻¹ := by
+    field_simp
+    linear_combination h
+  rw [this]
+  field_simp
+  linear_combination -hi
+
+theorem cast_A : ((MONTGOMERY_A : Nat) : Fp) = 486662 := by
+  simp only [MONTGOMERY_A, Nat.cast_ofNat]
+
+/-- **Elligator2 lands on the curve**: for every `r`, the output `u` of `elligator_encode` satisfies
+`u ≠ −1` and `u³ + A u² + u` is a square (i.e. `u` is the `u`-coordinate of a point of Curve25519, not of the
+twist). -/
+theorem elligator_curve (r0 : Nat) :
+    ((Spec.elligatorEncode r0 : Nat) : Fp) ≠ -1 ∧
+      IsSquare (((Spec.elligatorEncode r0 : Nat) : Fp) ^ 3 + 486662 * ((Spec.elligatorEncode r0 : Nat) : Fp) ^ 2
+        + ((Spec.elligatorEncode r0 : Nat) : Fp)) := by
+  have hsq : IsSquare (((Spec.elligatorEncode r0 : Nat) : Fp) ^ 3 +
+      486662 * ((Spec.elligatorEncode r0 : Nat) : Fp) ^ 2 + ((Spec.elligatorEncode r0 : Nat) : Fp)) := by
+    unfold Spec.elligatorEncode
+    simp only []
+    have hD1 := one_add_two_sq_ne_zero (r0 : Fp)
+    have hdc : ((fmul (fneg MONTGOMERY_A) (finv (fadd 1 (fmul 2 (fsq r0)))) : Nat) : Fp) =
+        -486662 * (1 + 2 * (r0 : Fp) ^ 2)⁻¹ := by
+      simp only [cast_fmul, cast_fneg, cast_finv, cast_fadd, cast_fsq, cast_A, Nat.cast_one, Nat.cast_ofNat]
+    generalize fmul (fneg MONTGOMERY_A) (finv (fadd 1 (fmul 2 (fsq r0)))) = d at hdc
+    have hdD : (d : Fp) * (1 + 2 * (r0 : Fp) ^ 2) = -486662 := by
+      rw [hdc]; field_simp
+    have heps : ((fmul d (fadd (fadd (fsq d) (fmul MONTGOMERY_A d)) 1) : Nat) : Fp) =
+        (d : Fp) ^ 3 + 486662 * (d : Fp) ^ 2 + d := by
+      simp only [cast_fmul, cast_fadd, cast_fsq, cast_A, Nat.cast_one]; ring
+    generalize fmul d (fadd (fadd (fsq d) (fmul MONTGOMERY_A d)) 1) = eps at heps
+    cases hf : (sqrtRatioM1 eps 1).1
+    · -- eps is not a square: u = -(d + A), and u³ + A u² + u = 2 r² eps
+      simp only [Bool.false_eq_true, if_false]
+      have hns : ¬ IsSquare ((eps : Nat) : Fp) := by
+        intro hs
+        have := (sqrtRatioM1_ok_iff eps 1).2 (Or.inr ⟨by simp, by simpa using hs⟩)
+        rw [hf] at this; cases this
+      obtain ⟨w, hw⟩ := isSquare_mul_of_not two_not_isSquare hns
+      refine ⟨(r0 : Fp) * w, ?_⟩
+      simp only [cast_fneg, cast_fadd, cast_A]
+      rw [heps] at hw
+      linear_combination ((r0 : Fp) ^ 2) * hw +
+        (-(d : Fp) ^ 2 - 486662 * (d : Fp) - 1) * hdD
+    · simp only [if_true]
+      rcases (sqrtRatioM1_ok_iff eps 1).1 hf with h0 | ⟨-, hs⟩
+      · rw [← heps, h0]; exact ⟨0, by simp⟩
+      · rw [← heps]; simpa using hs
+  refine ⟨?_, hsq⟩
+  intro h
+  rw [h] at hsq
+  apply A_sub_two_not_isSquare
+  have : (486660 : Fp) = (-1) ^ 3 + 486662 * (-1) ^ 2 + -1 := by norm_num
+  rw [this]; exact hsq
+
+/-- **`elligator_on_curve`**: `to_edwards` never fails on the output of `elligator_encode`, for either sign. -/
+theorem elligator_toEdwards_ne_none (r0 : Nat) (s : Bool) :
+    Spec.toEdwards (Spec.elligatorEncode r0) s ≠ none := by
+  intro h
+  rw [toEdwards_eq_none_iff] at h
+  obtain ⟨h1, h2⟩ := elligator_curve r0
+  rcases h with h | h
+  · exact h1 h
+  · exact h h2
 
 end Dalek.Proofs.Mont
